@@ -539,6 +539,8 @@ class ModuleTemplate(Template):
 
         self.module = module
         self.filename = template_filename
+        # (read by the Beaker backend to place its files)
+        self.module_directory = None
         ModuleInfo(
             module,
             module_filename,
